@@ -113,7 +113,7 @@ def run_contract(contract, inputs, seconds=None):
         olds = []
         for o in rw.olds:
             try:
-                olds.append(copy.deepcopy(_eval(o, env)))
+                olds.append(_snapshot(_eval(o, env)))
             except Unevaluable:
                 olds.append(Unevaluable)
         rewritten.append((txt, n2, olds))
@@ -270,10 +270,24 @@ def _check_call(contract, fn, names, a, kw):
 
 
 def _snapshot(v):
-    try:
-        return copy.deepcopy(v)
-    except Exception:
+    """Value of an old(...) expression as it was before the call: containers of plain values are copied; objects with identity
+    (files, writers, readers, matcher objects ...) are kept by reference, so that `x == old(x)` on them means 'the same object',
+    as it does in the symbolic semantics."""
+    if isinstance(v, (int, float, str, bytes, type(None))):
         return v
+    if isinstance(v, bytearray):
+        return bytearray(v)
+    if isinstance(v, (list, tuple)) and not hasattr(v, "_fields"):
+        return type(v)(_snapshot(x) for x in v)
+    if isinstance(v, dict):
+        try:
+            c = v.__class__.__new__(v.__class__)
+            for k, x in v.items():
+                dict.__setitem__(c, k, _snapshot(x))
+            return c
+        except Exception:
+            return {k: _snapshot(x) for k, x in v.items()}
+    return v
 
 
 def _show(v):
